@@ -245,7 +245,7 @@ def near_miss(rng, s):
 
 
 def gen_parse(rng, tier):
-    n = 700 if tier == "quick" else 160000
+    n = 700 if tier == "quick" else 400000
     # forms drawn from the XSD grammar itself (every fraction length 0..12, -0000, +00:00, 24:00:00.0…,
     # XSD white space) and one-defect neighbours of them
     for kind in KINDS:
@@ -271,6 +271,30 @@ def gen_parse(rng, tier):
         for mm in (0, 1, 59, 60, 99):
             for sg in "+-":
                 yield {"kind": "time", "s": f"01:02:03{sg}{hh:02d}:{mm:02d}"}
+    # every timezone hh:mm with hh 0..15, mm 0..60, both signs (841 valid ones each side)
+    for hh in range(0, 16):
+        for mm in range(0, 61):
+            for sg in "+-":
+                yield {"kind": "time", "s": f"23:59:59{sg}{hh:02d}:{mm:02d}"}
+    if tier != "quick":
+        # every pair of characters from a hostile alphabet at each two-digit field
+        alpha2 = "0123456789 +-_٣²:"
+        base = "2004-02-29T23:59:59.5+13:59"
+        for pos in (5, 8, 11, 14, 17, 22, 25):
+            for c1 in alpha2:
+                for c2 in alpha2:
+                    t = base[:pos] + c1 + c2 + base[pos + 2:]
+                    yield {"kind": "datetime", "s": t}
+                    if pos >= 11:
+                        yield {"kind": "time", "s": t[11:]}
+                    if pos < 11:
+                        yield {"kind": "date", "s": t[:10] + t[21:]}
+        # every fraction: lengths 0..11 x leading/trailing zeros x all-nines
+        for k in range(0, 12):
+            for fr in {"1" * k, "0" * k, "9" * k, ("0" * (k - 1) + "1") if k else "", ("1" + "0" * (k - 1)) if k else ""}:
+                for tz in ("", "Z", "-00:00"):
+                    yield {"kind": "time", "s": "00:00:00" + ("." + fr if k else "") + tz}
+                    yield {"kind": "datetime", "s": "-0000-01-01T24:00:00" + ("." + fr if k else "") + tz}
     for kind in KINDS:
         for _ in range(n):
             v = rand_value(rng, kind)
@@ -285,7 +309,7 @@ def gen_parse(rng, tier):
 
 
 def gen_str(rng, tier):
-    n = 500 if tier == "quick" else 160000
+    n = 500 if tier == "quick" else 400000
     for kind in KINDS:
         for _ in range(n):
             yield {"kind": kind, "v": rand_value(rng, kind)}
@@ -302,7 +326,7 @@ FMTS = ["%Y-%m-%d%z", "%H:%M:%S%z", "---%d%z", "--%m%z", "--%m-%d%z", "%Y%z", "%
 
 
 def gen_args(rng, tier):
-    n = 800 if tier == "quick" else 160000
+    n = 800 if tier == "quick" else 400000
     hand = ["---01", "---31Z", "--12", "--12-31+01:00", "2001", "2001-10", "-2001-10Z", "--1", "---1", "----", "--12-", "---01+", "a"]
     for f in FMTS:
         for s in hand:
@@ -337,7 +361,7 @@ def gen_int(rng, tier):
     hand = ["\x1c1", "1\x1f", "\x0b1", "\x0c1", "\x851", "\xa01", "\u20281", "1\x1c\xa0", "0", "00", "-0", "+5", " 5 ", "5_0", "_5", "5_", "5__0", "", " ", "-", "+", "+-5", "٣", "1٣", "²", " 5", "5 ", "1 2", "0x1", "1e3", "1.0", "-_1", "+_1", "1_٣", "１２"]
     for s in hand:
         yield {"s": s}
-    n = 1500 if tier == "quick" else 240000
+    n = 1500 if tier == "quick" else 400000
     a = "0123456789+-_ \t٣²１x\x1c\x1f\xa0\x0b"
     for _ in range(n):
         yield {"s": "".join(rng.choice(a) for _ in range(rng.randint(0, 6)))}
@@ -414,7 +438,7 @@ PERIOD_HAND = [
 def gen_period(rng, tier):
     for s in PERIOD_HAND:
         yield {"s": s}
-    n = 1200 if tier == "quick" else 240000
+    n = 1200 if tier == "quick" else 500000
     for _ in range(n):
         k = rng.randrange(5)
         off = D.format_offset(rand_offset(rng))
@@ -458,7 +482,7 @@ def gen_dur(rng, tier):
                 yield {"s": neg + "P" + date + ("T" + t if t else "")}
                 if t == "":
                     yield {"s": neg + "P" + date + "T"}
-    n = 1500 if tier == "quick" else 240000
+    n = 1500 if tier == "quick" else 500000
     for _ in range(n):
         parts = ""
         for c in "YMD":
@@ -557,7 +581,7 @@ def gen_cmp(rng, tier):
             if d <= D.monthlen(y, m):
                 a = [y, m, d, 12, 0, 0, 0, None]
                 yield {"kind": "datetime", "a": a, "b": near(rng, a, "datetime")}
-    n = 1500 if tier == "quick" else 320000
+    n = 1500 if tier == "quick" else 600000
     for kind in ("time", "datetime"):
         for _ in range(n):
             v = rand_value(rng, kind)
@@ -633,7 +657,7 @@ EDGE_FRACS = [0, 1, 999, 1000, 999999999, 10**9, -1, -1000, -1001, C_INT * 1000 
 
 
 def gen_to_std(rng, tier):
-    n = 400 if tier == "quick" else 60000
+    n = 400 if tier == "quick" else 200000
     # bounded-exhaustive: every edge year x every edge offset; every edge fraction; field overflows
     for y in EDGE_YEARS:
         for o in EDGE_OFFSETS:
@@ -701,7 +725,7 @@ def rand_utcoffset(rng):
 
 
 def gen_from_std(rng, tier):
-    n = 400 if tier == "quick" else 60000
+    n = 400 if tier == "quick" else 200000
     for u in (None, 0, 1, -1, 59999999, 60000000, 60000001, -59999999, -60000000, -60000001, DAY_US - 1, -DAY_US + 1, 19815 * 10**6):
         yield {"kind": "datetime.from_datetime", "v": [1, 1, 1, 0, 0, 0, 0, u]}
         yield {"kind": "datetime.from_datetime", "v": [9999, 12, 31, 23, 59, 59, 999999, u]}
@@ -777,7 +801,7 @@ def impl_repeat(a):
 
 
 def gen_repeat(rng, tier):
-    n = 250 if tier == "quick" else 20000
+    n = 250 if tier == "quick" else 60000
     kinds = ["date", "time", "datetime", "period", "duration"]
 
     def one(k):
@@ -1017,7 +1041,7 @@ def oracle_value(a):
 
 
 def gen_oracle_parse(rng, tier):
-    yield from gen_parse(rng, "quick")
+    yield from gen_parse(rng, tier)
 
 
 
@@ -1234,6 +1258,9 @@ def oracle_from_std(a):
         x = XmlTime.from_time(t)
         if not real_value("time", list(x)):
             return f"XmlTime.from_time({t!r}) = {x!r} is no time of day"
+        want = ((t.hour * 60 + t.minute) * 60 + t.second) * 10**9 + t.microsecond * 1000 - (u or 0) * 1000
+        if ref_instant("time", list(x)) != want:
+            return f"XmlTime.from_time({t!r}) = {x!r} is another time of day"
         t2 = x.to_time()
         if t2 != t or t2.utcoffset() != t.utcoffset() or (t2.tzinfo is None) != (t.tzinfo is None):
             return f"XmlTime.from_time({t!r}).to_time() = {t2!r}"
